@@ -728,7 +728,7 @@ func (p *Process) ceaseFlowMonitor(tracer tracing.ITracer) func(ctx context.Cont
 // WaitUntilComplete waits until the instance is complete.
 // Returns true if the instance was complete, false if the context signaled `Done`
 func (p *Process) WaitUntilComplete(ctx context.Context) (complete bool) {
-	signal := make(chan bool)
+	signal := make(chan bool, 1)
 	go func() {
 		p.complete.Lock()
 		defer p.complete.Unlock()
